@@ -306,7 +306,7 @@ def _kill(facts, e):
     return tuple(f for f in facts if survives(f))
 
 
-def relevant_vars(f, extra_calls=()):
+def relevant_vars(f, extra_calls=(), through_calls=True):
     """variables whose constant value can decide a return: those in return expressions (and exit() arguments), and
     transitively the variables copied or counted into them"""
     R = set()
@@ -326,6 +326,8 @@ def relevant_vars(f, extra_calls=()):
             elif e["k"] == "decl" and "init" in e:
                 tgt, tree = e["id"], e["init"]["tree"]
             if tgt in R:
+                if not through_calls and isinstance(strip_casts(tree), list) and strip_casts(tree) and strip_casts(tree)[0] in ("call", "icall"):
+                    continue        # a call's result is opaque: its arguments do not decide the return value
                 new = _vars_of(tree) - R
                 if new:
                     R |= new
@@ -334,7 +336,7 @@ def relevant_vars(f, extra_calls=()):
 
 
 def explore(f, start_block, start_idx, subject, value, classify_return, max_states=40000, origin_callid=None, from_entry=True,
-            terminal_calls=None, forbidden_calls=(), subject_return_ok=True):
+            terminal_calls=None, forbidden_calls=(), subject_return_ok=True, rel_facts_only=False):
     """Walk every path from the function entry through the site (start_block,start_idx); after the site assume
     subject == value.  Branch conditions are decided (a) under the assumption when they mention the subject,
     (b) by the facts collected from the branches already taken on this path (correlated branches: `edx < n` at the
@@ -347,6 +349,7 @@ def explore(f, start_block, start_idx, subject, value, classify_return, max_stat
     seen = set()
     dq = collections.deque()
     REL = relevant_vars(f, tuple(terminal_calls or ()))
+    REL_NAMES = {v.split("@")[0] for v in relevant_vars(f, tuple(terminal_calls or ()), through_calls=False)} if rel_facts_only else set()
     LIVE = f.liveness()
     LIVE_NAMES = {bid: {v.split("@")[0] for v in vs} for bid, vs in LIVE.items()}
     # variables currently holding the result (the variable it was stored in, then whole-object copies of it)
@@ -387,7 +390,9 @@ def explore(f, start_block, start_idx, subject, value, classify_return, max_stat
                         if rv is not None and rv < 0:
                             stop = True
                             break
-                    kind = classify_return(b, i, e, dict(env))
+                    envx = dict(env)
+                    envx[("__facts__", None)] = facts
+                    kind = classify_return(b, i, e, envx)
                     if kind != "fail" and (b.id, i) not in reported:
                         reported.add((b.id, i))
                         out.append((kind, b, i, e, path, lost))
@@ -498,6 +503,8 @@ def explore(f, start_block, start_idx, subject, value, classify_return, max_stat
                 v = None
                 if phase == 1 and not lost and mentions(tree, subj):
                     v = eval_under(tree, subj, value)
+                if v is None and env:
+                    v = eval_under(tree, None, None, dict(env))     # the switched variable holds a constant on this path
                 if v is not None:
                     hit = default = None
                     for idx, s in enumerate(b.succ):
@@ -545,6 +552,8 @@ def explore(f, start_block, start_idx, subject, value, classify_return, max_stat
                     if idx in alive:
                         fo = _fact_of(tree, truth)
                         if fo is not None and not (phase == 1 and mentions(tree, subj)):
+                            if rel_facts_only and not (fo[1] <= REL_NAMES):
+                                continue    # only branches on return-relevant variables are remembered (bounds the state space)
                             newfacts[idx] = fo
         for idx in alive:
             if idx >= len(b.succ) or b.succ[idx] is None:
